@@ -11,6 +11,8 @@
      1406 the Go race detector reported a data race (thorough tier only)
      1411 application books, 1412 queue books, 1413 node allocation not owned by a live application,
      1414 application allocation not on its node, 1415 root vs nodes, 1416 leak after drain   (C03 predicates)
+     1450 (known finding C14-alloc-leak-app-removed) a node lists an allocation whose own node id is still unset
+          and that no live application lists; the final-state predicates are then judged without these allocations
      1490 (correspondence) the harness' own cycle search and the Coq check disagree
    The predicates on the final state are the ones the sequential theorems C01/C03 are stated with
    (Core/Ledger.v); here they are validation only. *)
@@ -50,6 +52,29 @@ Definition final_state_kinds (s : ostate) : list N :=
   (if root_matches_nodes s then [] else [1415]) ++
   (if drained_ok s then [] else [1416]).
 
+(* window of known finding C14-alloc-leak-app-removed: the scheduler books an allocation on the node inside
+   Application.tryAllocate, the allocation's node id is only set afterwards in PartitionContext.allocate; an
+   application removal in between cannot find the node of that allocation and leaves it on the node for ever.
+   Signature: allocation listed by a node, node id of the allocation unset (0), not owned by a live application.
+   The state is judged again with these allocations taken off the node books. *)
+Definition unbound_orphan (s : ostate) (x : oalloc) : bool := (oa_node x =? 0) && negb (node_alloc_owned s x).
+Definition strip_node (s : ostate) (n : onode) : onode :=
+  let orphans := filter (unbound_orphan s) (on_allocs n) in
+  mkON (on_id n) (on_total n) (on_occupied n)
+       (fold_left (fun acc x => subFrom acc (oa_res x)) orphans (on_allocated n))
+       (fold_left (fun acc x => addTo acc (oa_res x)) orphans (on_available n))
+       (on_sched n) (filter (fun x => negb (unbound_orphan s x)) (on_allocs n)) (on_foreign n) (on_reservations n).
+Definition has_unbound_orphan (s : ostate) : bool :=
+  existsb (fun n => existsb (unbound_orphan s) (on_allocs n)) (s_nodes s).
+Definition strip_state (s : ostate) : ostate :=
+  mkOS (map (strip_node s) (s_nodes s)) (s_apps s) (s_queues s) (s_total s)
+       (s_nallocs s) (s_nph s) (s_nres s) (s_foreign s) (s_completed s) (s_rejected s) (s_ugm s).
+(* without applications the partition counter still counts the leaked allocation: drained_ok is judged apart *)
+Definition final_state_check (s : ostate) : list N :=
+  if has_unbound_orphan s
+  then 1450 :: filter (fun k => negb (k =? 1416)) (final_state_kinds (strip_state s))
+  else final_state_kinds s.
+
 Definition cycle_report_ok (c : conc_case) : bool :=
   match cc_gocycle c with
   | [] => lock_order_ok c
@@ -59,7 +84,7 @@ Definition cycle_report_ok (c : conc_case) : bool :=
 Definition conc_check_case (c : conc_case) : list N :=
   (if lock_order_ok c then [] else [1401]) ++
   (if cycle_report_ok c then [] else [1490]) ++
-  (if cc_observed c then final_state_kinds (cc_final c) else []) ++
+  (if cc_observed c then final_state_check (cc_final c) else []) ++
   (if 0 <? cc_blocked c then [1403] else []) ++
   (if 0 <? cc_godeadlock c then [1404] else []) ++
   (if 0 <? cc_panics c then [1405] else []) ++
